@@ -62,6 +62,9 @@ def client_call_spec(what: str, v: int) -> t.Tuple[str, t.Dict[str, t.Any], t.Di
         long = "ou=" + "x" * 200
         return "search_request", {"base_object": long}, dict(base, base=long)
     if what == "extended":
+        if v == 11:
+            big = b"\xa5" * 70000  # a message larger than 64 KiB (buffers sometimes switch strategy at such sizes)
+            return "extended_request", {"name": "1.2.840", "value": big}, {"kind": "extendedReq", "controls": [], "name": "1.2.840", "value": big}
         v %= 3
         if v == 0:
             return "extended_request", {"name": "1.3.6.1.4.1.1466.20037"}, {"kind": "extendedReq", "controls": [], "name": "1.3.6.1.4.1.1466.20037", "value": None}
@@ -86,6 +89,10 @@ def server_call_spec(kind: str, mid: int, code: int, v: int) -> t.Tuple[str, t.D
     if kind == "bind":
         creds = b"srv" if v % 3 == 2 else None
         return "bind_response", dict(rkw, message_id=mid, sasl_creds=creds), {"kind": "bindResponse", "id": mid, "controls": [], "result": res, "sasl": creds}, None
+    if kind == "entry" and v == 11:
+        big = b"\x5a" * 70000
+        return ("search_result_entry", {"message_id": mid, "object_name": "cn=big", "attributes": [s.PartialAttribute("jpegPhoto", [big])]},
+                {"kind": "searchResEntry", "id": mid, "controls": [], "name": "cn=big", "attributes": [("jpegPhoto", [big])]}, None)
     if kind == "entry":
         attrs = [s.PartialAttribute("cn", [b"v1", b"v2"])] if v % 2 else []
         return ("search_result_entry", {"message_id": mid, "object_name": "cn=e", "attributes": attrs},
